@@ -83,8 +83,7 @@ func impostorConnection(r *kit.Node, b *frame.Builder, presented m.PublicAddress
 	ep := kit.NewEndpoint("impostor")
 	done := false
 	go func() {
-		p, v := kit.Try(func() { _, _ = r.Peering().VerifSetupLink(ep, nil, false) })
-		if p {
+		if _, v := kit.Accept(r, ep); v != nil {
 			panicked = v
 		}
 		done = true
@@ -198,7 +197,7 @@ func secretReflection(t *testing.T, rep *kit.Report, evals, nontrivial *int64) {
 				var pv any
 				done := false
 				go func() {
-					_, v := kit.Try(func() { _, _ = r.Peering().VerifSetupLink(ep, nil, false) })
+					_, v := kit.Accept(r, ep)
 					pv = v
 					done = true
 				}()
@@ -275,7 +274,7 @@ func proofRelay(t *testing.T, rep *kit.Report, evals, nontrivial *int64) {
 			var errA error
 			continued := false
 			go func() { _, v := kit.Try(func() { _, errA = a.Peering().VerifSetupLink(epA, nil, true) }); pa = v }()
-			go func() { _, v := kit.Try(func() { _, _ = p.Peering().VerifSetupLink(epP, nil, false) }); pp = v }()
+			go func() { _, v := kit.Accept(p, epP); pp = v }()
 			synctest.Wait()
 			oa, op := epA.Take(), epP.Take()
 			if len(oa) == 0 || len(op) == 0 {
